@@ -27,8 +27,10 @@ class WAPProtocol(HTTPProtocol):
 
         waptop = self.config.get("protocols.wap.WAPProtocol", "waptop")
         self.waptop = waptop
-        if self.requestparts[1].startswith(waptop):
-            # If it starts with waptop, *guaranteed* to be wap.
+        path = self.requestparts[1]
+        if path == waptop or path.startswith((waptop + "/", waptop + "?")):
+            # If it is below waptop, *guaranteed* to be wap.  (A name that
+            # merely begins with the same letters, like /wapiti.txt, is not.)
             self.requestparts[1] = self.requestparts[1][len(waptop) :]
             return True
 
